@@ -23,7 +23,7 @@ from harness.props import c12
 warnings.filterwarnings("ignore")
 LOADER_NAME = {"cube": "Cube", "metricflow": "MetricFlow", "lookml": "LookML", "hex": "Hex", "rill": "Rill", "superset": "Superset", "omni": "Omni", "bsl": "BSL", "gooddata": "GoodData",
                "snowflake": "Snowflake", "malloy": "Malloy", "osi": "OSI", "thoughtspot": "ThoughtSpot", "holistics": "Holistics", "sidemantic": "Sidemantic"}
-FEATS = [("agg", "sum"), ("agg", "count_distinct"), ("filtered", None), ("dim_type", "boolean"), ("composite_pk", None), ("sql_model", None), ("relationship", "one_to_many"), ("segment", None), ("count_star", None), ("dims_only_single", None)]
+FEATS = [("agg", "sum"), ("agg", "count_distinct"), ("filtered", None), ("dim_type", "boolean"), ("composite_pk", None), ("sql_model", None), ("relationship", "one_to_many"), ("segment", None), ("count_star", None), ("dims_only_single", None), ("user_text", "regex_class")]
 PREAMBLE = "From Coq Require Import String List Bool.\nRequire Import V.Model.Loader V.Gen.Detect_gen.\nImport ListNotations.\nOpen Scope string_scope.\n" \
            "Definition so (o : option string) : string := match o with Some s => s | None => \"-\" end.\n"
 
@@ -308,6 +308,52 @@ def e2e(c, root):
         except Exception as e:
             logging.disable(logging.NOTSET)
             c.notes.append("dimension-only run for %s failed: %s" % (key, str(e)[:100]))
+    # EVERY shipped fixture file of every format, alone in a directory (exhaustive and deterministic: the assembled directories above
+    # only sample them)
+    nfix = 0
+    for key in sorted(FIXTURE_DIRS):
+        d0 = os.path.join(fx, key)
+        if not os.path.isdir(d0):
+            continue
+        for f in sorted(os.listdir(d0)):
+            src = os.path.join(d0, f)
+            if not os.path.isfile(src):
+                continue
+            names = own_models(key, src)
+            if not names:
+                continue
+            d = tempfile.mkdtemp(prefix="f_", dir=root)
+            shutil.copy(src, d)
+            logging.disable(logging.CRITICAL)
+            try:
+                L = SemanticLayer(connection="duckdb:///:memory:", auto_register=False)
+                load_from_directory(L, d)
+                err = None
+            except Exception as e:
+                err = e
+            finally:
+                logging.disable(logging.NOTSET)
+            if err is not None and "validation failed" in str(err):
+                stats["fixture_files_outside_premise"] = stats.get("fixture_files_outside_premise", 0) + 1
+                shutil.rmtree(d, ignore_errors=True)
+                continue           # the file's own definitions fail the layer's validation at registration (metrics over measures of another file): outside the premise
+            nfix += 1
+            checked += 1
+            wrong = [] if err is None else [("*", "loading fails: %s" % str(err)[:100])]
+            if err is None:
+                for n in names:
+                    m = L.graph.models.get(n)
+                    fmt = getattr(m, "_source_format", None) if m is not None else None
+                    if m is None or fmt != LOADER_NAME[key]:
+                        wrong.append((n, "missing" if m is None else "loaded as %s" % fmt))
+            if wrong:
+                fid = "C13-fixture:%s/%s" % (key, f)
+                if c.is_open(fid):
+                    c.known(fid)
+                else:
+                    c.violation("the shipped %s file %s is not handled by its own adapter: %s" % (key, f, wrong[:4]), {"kind": "fixture", "format": key, "file": f, "models": wrong[:8]})
+            shutil.rmtree(d, ignore_errors=True)
+    stats["fixture_files_alone"] = nfix
     c.coverage["files_checked"] = checked
     c.coverage["distribution"] = stats
     c.coverage["traces_validated_against_impl"] = checked
